@@ -64,5 +64,5 @@ def to_pair(u, rec, cfg, ob):
     db = obsproj.project_db(rec['tables'])
     c = obsproj.project_cfg(cfg, norm_table(u, cfg))
     c.append([[f, obsproj.OPT(p)] for f, p in u['searches']])
-    c.append([[obsproj.OPT(t.get('lexicon')), obsproj.OPT(t.get('lang'))] for t in u['translate_to']])
+    c.append([[obsproj.OPT(t.get('lexicon')), obsproj.OPT(t.get('lang'))] for t in (u.get('translate_to') or [])])
     return [db, c], obsproj.project_obs(ob)
